@@ -22,6 +22,9 @@ def demo(cwd, name):
     r = sh('cargo test --offline -p vibrato --test %s 2>&1' % name, cwd)
     m = re.search(r'test result: (\w+)\. (\d+) passed; (\d+) failed', r.stdout)
     if not m:
+        # a demonstration may fail at COMPILE time (auto-trait obligations such as `Tokenizer: Send + Sync`)
+        if re.search(r'cannot be (shared|sent) between threads safely', r.stdout):
+            return False, 'does not compile: ' + re.search(r'error\[E\d+\]: [^\n]*', r.stdout).group(0)[:200]
         return None, r.stdout[-400:]
     return (m.group(1) == 'ok'), '%s passed, %s failed' % (m.group(2), m.group(3))
 
